@@ -363,11 +363,12 @@ def plan(tier, seed, workdir):
         body += hgen.harness('new', 'v: int, yi: int', [f'{lo} <= v <= {hi}', '0 <= yi < 8' if tier == 'thorough' else '0 <= yi < 3'],
                              core_call='core_new(v, yi)')
         path = hgen.write_module(workdir, f'c16_new{n}', body)
-        hgen.ch_tasks(p, path, 'new', timeout, est=60, family='E1 datetimeNew + getters vs ordinal arithmetic', base=base, position=pos, range=[lo, hi])
+        hgen.ch_tasks(p, path, 'new', timeout, est=60, family='E1 datetimeNew + getters vs ordinal arithmetic', base=base, position=pos, range=[lo, hi],
+                      enum={'v': list(range(lo, hi + 1)), 'yi': list(range(8))})
     body = CORE.format(base=[2024, 1, 1, 0, 0, 0, 0], pos=2, lo=0, hi=0)
     body += hgen.harness('addsub', 'k: int, yi: int', ['0 <= k < 25', '0 <= yi < 8'], core_call='core_addsub(k, yi)')
     path = hgen.write_module(workdir, 'c16_addsub', body)
-    hgen.ch_tasks(p, path, 'addsub', timeout, est=60, family='E1 (d + n ms) - d == n')
+    hgen.ch_tasks(p, path, 'addsub', timeout, est=60, family='E1 (d + n ms) - d == n', enum={'k': list(range(25)), 'yi': list(range(8))})
     p.rule = ('3 z3 lemmas on the real AST of datetimeNew (carry chain for all integers; inductive step of each day loop; uniqueness of the '
               'civil representation) + CrossHair conditions with one symbolic component each + add/subtract over a solver-indexed pool')
     p.bounds = ['E2: all integers for the carry chain; loops: arbitrary state with 1<=month<=12, years 1..9999',
